@@ -84,7 +84,8 @@ fn clone_points(data: &[u8], whole: &[Ev]) -> Option<(String, String)> {
             // the same snapshot restored into a used parser with clone_from
             let mut p2 = anstyle_parse::Parser::<anstyle_parse::DefaultCharAccumulator>::new();
             let mut scratch = Recorder::default();
-            for &b in b"\x1b[1;2;3;4;5;6;7;8;9;10;11;12;13;14;15;16;17;18;19;20;21;22;23;24;25;26;27;28;29;30;31;32;33;34   \x1b]a;b" {
+            let dirty: [&[u8]; 4] = [b"\x1b[1;2;3;4;5;6;7;8;9;10;11;12;13;14;15;16;17;18;19;20;21;22;23;24;25;26;27;28;29;30;31;32;33;34   \x1b]a;b", b"\x1b[1;2;3;4;5;6;7;8;9;10;11;12;13;14;15;16;17;18;19;20;21;22;23;24;25;26;27;28;29;30;31;32;33;34", b"\x1b[1 !\"", b"\x1bP1;2:3$"];
+            for &b in dirty[k % 4] {
                 p2.advance(&mut scratch, b);
             }
             let mut snap = anstyle_parse::Parser::<anstyle_parse::DefaultCharAccumulator>::new();
